@@ -1,0 +1,96 @@
+//! Verification hooks (cargo feature `verif`, off by default).
+//!
+//! Nothing in here changes behaviour unless a test harness asks for it: the slice-length
+//! override is `None` until set, and the event sink only records what already happened.
+//! Everything is thread-local, so harnesses that drive several executors on one thread see a
+//! single, ordered log.
+
+use crate::process::ProcessId;
+use std::cell::{Cell, RefCell};
+
+/// One record per executed cold operation that a trace validator cannot reconstruct from the
+/// post-state alone.
+#[derive(Debug, Clone, PartialEq, Eq)]
+pub enum Event {
+    /// `Executor::step` popped this process from the run queue.
+    Run { pid: ProcessId },
+    /// Instruction units the slice executed for `pid`.
+    Units { pid: ProcessId, units: usize },
+    /// Timeouts re-queued by `check_expired_timeouts`, in the order they were queued.
+    Expired { pids: Vec<ProcessId> },
+    /// A `Select` instruction was executed for the first time (state initialised).
+    SelectInit {
+        pid: ProcessId,
+        sources: usize,
+        targets: Vec<ProcessId>,
+        now: u64,
+    },
+    /// A `Select` completed through source number `source` (position in the written list).
+    SelectComplete { pid: ProcessId, source: usize },
+    /// A receive filter was called on mailbox position `message`.
+    FilterCall {
+        pid: ProcessId,
+        receive: usize,
+        message: usize,
+    },
+    /// A receive filter returned.
+    FilterVerdict {
+        pid: ProcessId,
+        receive: usize,
+        accepted: bool,
+    },
+    /// No source was ready; the process parked in `selecting`.
+    SelectPark { pid: ProcessId },
+    /// An instruction failed and terminated the process.
+    Failed { pid: ProcessId },
+}
+
+thread_local! {
+    static QUANTUM: Cell<Option<usize>> = const { Cell::new(None) };
+    static RECORDING: Cell<bool> = const { Cell::new(false) };
+    static EVENTS: RefCell<Vec<Event>> = const { RefCell::new(Vec::new()) };
+}
+
+/// Override the number of instruction units `Executor::step` runs per slice on this thread.
+pub fn set_quantum(quantum: Option<usize>) {
+    QUANTUM.with(|q| q.set(quantum));
+}
+
+pub fn quantum() -> Option<usize> {
+    QUANTUM.with(|q| q.get())
+}
+
+/// Turn the event sink on or off for this thread (off by default).
+pub fn set_recording(on: bool) {
+    RECORDING.with(|r| r.set(on));
+}
+
+pub fn emit(event: Event) {
+    if RECORDING.with(|r| r.get()) {
+        EVENTS.with(|e| e.borrow_mut().push(event));
+    }
+}
+
+/// Drain the recorded events.
+pub fn take_events() -> Vec<Event> {
+    EVENTS.with(|e| std::mem::take(&mut *e.borrow_mut()))
+}
+
+/// Read-only snapshot of executor-private scheduling and heap bookkeeping.
+#[derive(Debug, Clone, Default)]
+pub struct ExecutorView {
+    pub queue: Vec<ProcessId>,
+    pub spawning: Vec<ProcessId>,
+    pub selecting: Vec<ProcessId>,
+    pub effecting: Vec<ProcessId>,
+    pub process_ids: Vec<ProcessId>,
+    pub refcounts: Vec<u32>,
+    pub freed: Vec<bool>,
+    pub free: Vec<usize>,
+    pub pending_free: Vec<usize>,
+    /// Heap slots pinned by the constant-binary cache.
+    pub constant_slots: Vec<usize>,
+    /// Flattened content of every heap slot.
+    pub contents: Vec<Vec<u8>>,
+    pub next_ref: u64,
+}
